@@ -231,7 +231,11 @@ def main(tier, only=None):
     n = 176 if tier == "quick" else 3000
     optrecs = options_from_tlc(run, n, sd)
     models = [(e["family"], e["net"], False) for e in corpus.all_singles(sd)]
-    models += [(e["family"], e["net"], False) for e in corpus.draw(int(n * 0.6) - len(models), sd)]
+    hints = {}
+    for e in corpus.draw(int(n * 0.6) - len(models), sd):
+        models.append((e["family"], e["net"], False))
+        if e.get("hint"):
+            hints[id(e["net"])] = e["hint"]
     models += corner_models(rng, n - len(models))
     rng.shuffle(models)
     from .. import codec
@@ -239,7 +243,11 @@ def main(tier, only=None):
     d = run.tmpdir("c13")
     jobs = []
     for i, (label, net, fb) in enumerate(models[:len(optrecs)]):
-        jobs.append((i, label, net, to_opts(optrecs[i]), d))
+        o = to_opts(optrecs[i])
+        if id(net) in hints:      # the family knows the (valid) option values under which it is interesting
+            o.update(hints[id(net)])
+            o = {k: v for k, v in o.items() if v is not None}
+        jobs.append((i, label, net, o, d))
     with ThreadPoolExecutor(16) as ex:
         results = list(ex.map(_invoke, jobs))
     events, meta = [], {}
